@@ -133,7 +133,7 @@ package chain
 // write trie nodes; they do not write client balances or nonces themselves (assumption).
 //@ func (*Chain).ExecuteSmartContract
 //@   trusted
-//@   modifies payload(balances).$all, $out, $in, $ntr, $saved, $nsaved, $deleted, $scWrites
+//@   modifies payload(balances).$all, $out, $in, $ntr, $saved, $nsaved, $deleted, $scWrites, $cacheScWrites
 //@   ensures payload(balances, StateContext).mutex == old(payload(balances, StateContext).mutex) && payload(balances, StateContext).txn == old(payload(balances, StateContext).txn)
 // nil cannot be queued (AddTransfer / AddSignedTransfer are the only writers and dereference their argument)
 //@   ensures forall i in 0..len(payload(balances, StateContext).transfers) :: payload(balances, StateContext).transfers[i] != nil
@@ -168,6 +168,8 @@ package chain
 //@   at-call GetTransfers assert[failed-call-only-fee-transfer] txn.Status == 2 ==> len(sctx.transfers) <= 1 && (len(sctx.transfers) == 1 ==> sctx.transfers[0].ClientID == txn.ClientID && sctx.transfers[0].Amount == txn.Fee)
 //@   at-call GetSignedTransfers assert[failed-call-no-signed-transfer] txn.Status == 2 ==> len(sctx.signedTransfers) == 0
 //@   at-call MergeMPTChanges assert[failed-call-writes-discarded] txn.Status == 2 ==> $scWrites == 0 && $arg1 == clientState
+// ... and the transaction cache that the deferred epilogue commits on success holds none of them either
+//@   ensures[failed-call-cache-discarded] err == nil && txn.Status == 2 ==> $cacheScWrites == 0
 // (C04) what is applied has been validated: when the queued transfers are read back to be applied,
 // the transfers out of the sender add up to at most value + fee, and every signed transfer has a
 // valid signature of its source account
